@@ -335,7 +335,65 @@ def run(rep, tier, root=None):
                        "a later compression optimises against values cached from an earlier profile")
     from . import c18_gctm
     c18_gctm.check(rep, ix)
-    rep.floor("C18 obligations", len(rep.obligations), 45)
+    rep.floor("C18 obligations", len(rep.obligations), 42)
+
+
+ZERO_LEN_TESTS = ("len(%s)==0", "notlen(%s)", "%s.size==0", "len(%s)<1", "%s.size<1", "not%s.size")
+
+
+def _edges_form(rep, ix, fn):
+    """the conversion written with an edge array:  E = concatenate(([0], S + 1, [N]));  return [arange(lo, hi) for lo, hi in
+    zip(E[:-1], E[1:])]  - consecutive edges tile [0, N) by construction for every number of splits (0 included).  An early
+    return of the single group is right only under a test that means `no splits`.  Returns False if the function is not of
+    this form."""
+    I = Interp(ix)
+    params = fn.params
+    if len(params) < 2:
+        return False
+    S = Rat.sym(params[0], ("array", "int"))
+    Nn = Rat.sym(params[1], ("int",))
+    paths = I.paths(fn, [S, Nn])
+    general = [(c, cnf, v) for c, cnf, v in paths if isinstance(v, Rat) and isinstance(v.single_atom(), Fn) and v.single_atom().name == "listcomp"]
+    if len(general) != 1:
+        return False
+    lc = general[0][2].single_atom()
+    body, tag, key = lc.args
+    ba = body.single_atom() if isinstance(body, Rat) else None
+    if not (isinstance(ba, Fn) and ba.name == "arange" and same_value(ba.args[2], Rat.const(1)) and isinstance(key, tuple) and key and key[0] == "zip"
+            and len(key[1]) == 2):
+        return False
+    lo_seq, hi_seq = key[1]
+    pos = Rat.sym(tag + "#", ("int", "loopvar"))
+    el = lambda q: Rat.atom(Fn("getitem", (q, pos)))
+    la, ha = lo_seq.single_atom(), hi_seq.single_atom()
+    ok_pairs = isinstance(la, Fn) and isinstance(ha, Fn) and la.name == "getitem" and ha.name == "getitem" and same_value(la.args[0], ha.args[0]) and \
+        same_value((la.args[1],), ((("slice", Rat.const(0), Rat.const(-1), None)),)) and same_value((ha.args[1],), ((("slice", Rat.const(1), None, None)),)) and \
+        same_value(ba.args[0], el(lo_seq)) and same_value(ba.args[1], el(hi_seq))
+    rep.check(bool(ok_pairs), "E2.tiling", fn.fq + ": group k is [E[k], E[k+1]) for consecutive entries of one edge array",
+              "groups are built from %s and %s" % (nf(lo_seq, 80), nf(hi_seq, 80)), fn.where())
+    if not ok_pairs:
+        return True
+    E = la.args[0]
+    ea = E.single_atom() if isinstance(E, Rat) else None
+    parts = ea.args[0] if isinstance(ea, Fn) and ea.name == "concat" else None
+    ok_edges = parts is not None and len(parts) == 3 and same_value(parts[0], Rat.const(0)) and same_value(parts[2], Nn) and same_value(parts[1], S + 1)
+    rep.check(bool(ok_edges), "E2.tiling", fn.fq + ": edges are [0, splits + 1 ..., N]", "edge array is %s" % nf(E, 160), fn.where())
+    # early returns
+    zero_ok = True
+    for st in fn.node.body:
+        if isinstance(st, ast.If) and any(isinstance(x, ast.Return) for x in ast.walk(st)):
+            t = norm_text(st.test).replace(" ", "")
+            names = [params[0]] + [norm_text(a.targets[0]) for a in ast.walk(fn.node) if isinstance(a, ast.Assign) and len(a.targets) == 1
+                                   and isinstance(a.targets[0], ast.Name)]
+            if not any(t == pat % nm for pat in ZERO_LEN_TESTS for nm in names):
+                zero_ok = False
+                rep.violation("E2.no-splits", "%s: early return under `%s`" % (fn.fq, norm_text(st.test)),
+                              "the single group [0, N) is returned whenever `%s` holds, which is not the same as `there are no splits`: a "
+                              "split array whose entries are all 0 (the first layer in a group of its own) also satisfies it, so L = 2 "
+                              "returns one layer" % norm_text(st.test), fn.where(st))
+    if zero_ok and fn.name == "_convert_splits_to_groups":
+        rep.ok("E2.no-splits", "%s: zero splits (L = 1) give the single group [0, N)" % fn.fq, "edges [0, N] give one group")
+    return True
 
 
 def tiling(rep, ix, fn):
@@ -343,6 +401,8 @@ def tiling(rep, ix, fn):
     loops = [n for n in ast.walk(fn.node) if isinstance(n, ast.For) and isinstance(n.iter, ast.Call)
              and norm_text(n.iter).replace(" ", "").startswith("range(len(")]
     loops = [l for l in loops if any(isinstance(x, ast.Call) and norm_text(x.func).endswith(".append") for x in ast.walk(l))]
+    if len(loops) != 1 and _edges_form(rep, ix, fn):
+        return
     if len(loops) != 1:
         rep.unknown("E2.tiling", fn.fq, "expected one `for i in range(len(splits))` loop that appends groups, found %d" % len(loops), fn.where())
         return
